@@ -15,11 +15,10 @@ CONSTANTS
   ClaimSecrets = {"s6", "s7", "s8"}
   InitBal = 1
   MaxUpdates = 2
-VIEW View
+VIEW ViewGh
 INVARIANTS
   Inv_C04_Escrow
   Inv_C04_InOut
-  Inv_C04_Current
   Inv_C13_QueueSound
   Inv_C13_QueueComplete
 PROPERTIES
@@ -29,6 +28,7 @@ PROPERTIES
   Act_C03_RejectionsInert
   Act_C03_RefundAtExpiry
   Act_C03_ExactlyOnce
+  Act_C04_Current
   Act_C04_Limit
   Act_C04_Window
   Act_C13_OnceOnTime
